@@ -155,6 +155,16 @@ impl<R> PMTiles<R> {
     }
 }
 
+#[cfg(feature = "verif")]
+impl<R> PMTiles<R> {
+    /// Verification-only, read-only accessor (cargo feature `verif`): sizes of the builder's
+    /// internal maps `[ids, stored contents, reference sets, in-memory tiles, backed tiles, retained bytes]`.
+    #[doc(hidden)]
+    pub fn verif_counts(&self) -> [u64; 6] {
+        self.tile_manager.verif_counts()
+    }
+}
+
 impl<R: Read + Seek> PMTiles<R> {
     /// Get data of a tile by its id.
     ///
